@@ -8,6 +8,7 @@ package main
 //            "jobs": [{"harness": "vh/c07.HexRoundTrip", "params": {"n": 3}, "cfg": {"MaxFork": 64}}]}
 
 import (
+	"runtime/debug"
 	"runtime/pprof"
 	"encoding/json"
 	"flag"
@@ -78,6 +79,7 @@ func main() {
 	verbose := flag.Bool("v", false, "verbose")
 	cpuprof := flag.String("cpuprofile", "", "write cpu profile")
 	flag.Parse()
+	debug.SetGCPercent(600) // allocation-heavy interpreter, plenty of memory: trade memory for GC time
 	if *cpuprof != "" {
 		f, _ := os.Create(*cpuprof)
 		pprof.StartCPUProfile(f)
